@@ -16,6 +16,6 @@ PrintBehaviour ==
 GenNext ==
   \/ LoopEnter \/ RloopBody \/ RloopExit
   \/ InterpSkip \/ InterpBeyond \/ InterpAt
-  \/ Continue \/ Emit \/ WhileTest \/ AppendStep \/ GridStep
+  \/ Continue \/ Emit \/ WhileTest \/ AppendStep \/ GridStep \/ GridFinish
 GenSpec == Init /\ [][GenNext]_vars
 =============================================================================
